@@ -1102,3 +1102,7 @@ add("C12", "benign-sonar-files-added-with-plus-equals", CMF,
     [("    tool_result_files_map[\"sonar\"].extend(argv.sonar_issues_json or [])\n    tool_result_files_map[\"sonar\"].extend(argv.sonar_hotspots_json or [])\n",
       "    for sonar_files in (argv.sonar_issues_json, argv.sonar_hotspots_json):\n        tool_result_files_map[\"sonar\"] += sonar_files or []\n")],
     "silent")
+UM = "codemodder/codemods/utils_mixin.py"
+add("C18", "plain-import-resolved-by-statement", UM,
+    [("        if matchers.matches(import_node, matchers.Import()):\n            return get_full_name_for_node(import_alias.name)", "        if matchers.matches(import_node, matchers.Import()):\n            return _get_name(import_node)")],
+    "fire", "R-ALIAS-DECIDES", "base_name_for_import")
